@@ -133,9 +133,17 @@ def offset_sign_rules(db, chk, cfg, rule="OFFSET.sign"):
                       "offsets them)", where(s), cfg=cfg)
     # (b) group delta sign: Polygon groups use -delta iff the group is reversed
     g = db.one("ClipperOffset::DoGroupOffset")
-    first = kids(g.body)[0]
-    if first.get("kind") != "IfStmt":
-        raise AnalysisBroken("DoGroupOffset no longer starts with the end-type test")
+    lead = []
+    first = None
+    for st_ in kids(g.body):
+        if st_.get("kind") == "IfStmt":
+            first = st_
+            break
+        if st_.get("kind") != "DeclStmt":
+            break
+        lead.append(st_)
+    if first is None or "group_delta_" not in canon(first):
+        raise AnalysisBroken("DoGroupOffset no longer starts with the selection of group_delta_ by end type")
     polyT = db.enum("EndType").index("Polygon")
     for et in range(len(db.enum("EndType"))):
         for rev in (False, True):
@@ -148,6 +156,8 @@ def offset_sign_rules(db, chk, cfg, rule="OFFSET.sign"):
                     env = {"group.end_type": et, "group.is_reversed": rev, "delta_": d, "group.lowest_path_idx": 1}
                     it = Interp(db, env, call_hook=hook)
                     try:
+                        for st_ in lead:
+                            it.exec(st_)
                         it.exec(first)
                     except Unsupported as e:
                         raise AnalysisBroken("cannot interpret the delta selection of DoGroupOffset: %s" % e)
@@ -194,8 +204,9 @@ def minkowski_rules(db, chk, cfg, rule="MINK"):
     for i, s in enumerate(stmts):
         if s.get("kind") == "IfStmt":
             cond, then, els = if_parts(s)
-            guard = (i, cond, then)
-            break
+            if "return" in canon(then) and ("patLen" in canon(cond) or "size()" in canon(cond) or "empty()" in canon(cond)):
+                guard = (i, cond, then)
+                break
     ok = False
     if guard:
         i, cond, then = guard
@@ -233,15 +244,24 @@ def minkowski_rules(db, chk, cfg, rule="MINK"):
         chk.violation(rule + ".sign", f.qual, "isSum", "MinkowskiSum must add and MinkowskiDiff subtract the pattern point (p + pt2 / p - pt2)", f.where, cfg=cfg)
     # (c) closing edge of the path only when closed:  delta = isClosed ? 0 : 1 ; g = isClosed ? pathLen-1 : 0 ; loop i from delta
     ok = True
+    allowed = {"delta", "g", isClosed, "pathLen"}
     for closed in (False, True):
         try:
             it = Interp(db, {isClosed: closed, "pathLen": 7})
             for s in stmts:
-                if s.get("kind") == "DeclStmt" and any(d.get("name") in ("delta", "g") for d in kids(s)):
+                if s.get("kind") in ("ForStmt", "WhileStmt", "ReturnStmt"):
+                    continue
+                names = {x.get("referencedDecl", {}).get("name") for x in walk(s) if x.get("kind") == "DeclRefExpr"}
+                decls = {d.get("name") for d in kids(s) if d.get("kind") == "VarDecl"} if s.get("kind") == "DeclStmt" else set()
+                if not ((names | decls) & {"delta", "g"}) or not (names <= allowed):
+                    continue
+                if s.get("kind") == "DeclStmt":
                     for d in kids(s):
                         if d.get("name") in ("delta", "g"):
                             init = [c for c in kids(d) if c.get("kind")]
-                            it.env[d["name"]] = it.ev(init[-1])
+                            it.env[d["name"]] = it.ev(init[-1]) if init else None
+                else:
+                    it.exec(s)
             if it.env.get("delta") != (0 if closed else 1) or it.env.get("g") != (6 if closed else 0):
                 ok = False
         except Unsupported:
